@@ -163,10 +163,6 @@ def _lookup(ctx, eff):
                   f"None (" + "; ".join(f"{e}: {next(iter(d.values())).root().what}" for e, d in esc.items()) + ")",
                   f.loc(), witness="TZID=America (a directory of the tz database)",
                   detail="external lookup enclosed by handlers for every documented exception")
-        rets = [r for r in walk_no_nested(f.node) if isinstance(r, ast.Return)]
-        ctx.check(len(rets) == 1, "C04/LOOKUP", f"{cq.split('.')[-1]}.timezone falls through to None",
-                  "the lookup must return the zone or fall through (None)", f.loc(),
-                  detail="one return, implicit None otherwise")
     f = m.own_method("timezone.tzp.TZP.timezone")
     esc = eff.escapes(f)
     ctx.check(not esc, "C04/LOOKUP", "TZP.timezone never raises",
